@@ -450,6 +450,8 @@ impl BlockFilterRpc for BlockFilterRpcImpl {
         ) = build_filter_options(search_key)?;
         let mode = IteratorMode::From(from_key.as_ref(), direction);
         let snapshot = self.swc.storage().db.snapshot();
+        #[cfg(ckb_light_client_verif)]
+        crate::verif_hooks::point("read", "rpc:after_snapshot");
         let iter = snapshot.iterator(mode).skip(skip);
 
         let mut last_key = Vec::new();
@@ -622,6 +624,8 @@ impl BlockFilterRpc for BlockFilterRpcImpl {
 
         let mode = IteratorMode::From(from_key.as_ref(), direction);
         let snapshot = self.swc.storage().db.snapshot();
+        #[cfg(ckb_light_client_verif)]
+        crate::verif_hooks::point("read", "rpc:after_snapshot");
         let iter = snapshot.iterator(mode).skip(skip);
 
         if search_key.group_by_transaction.unwrap_or_default() {
@@ -858,6 +862,8 @@ impl BlockFilterRpc for BlockFilterRpcImpl {
         ) = build_filter_options(search_key)?;
         let mode = IteratorMode::From(from_key.as_ref(), direction);
         let snapshot = self.swc.storage().db.snapshot();
+        #[cfg(ckb_light_client_verif)]
+        crate::verif_hooks::point("read", "rpc:after_snapshot");
         let iter = snapshot.iterator(mode).skip(skip);
 
         let capacity: u64 = iter
@@ -959,6 +965,8 @@ impl BlockFilterRpc for BlockFilterRpcImpl {
             })
             .sum();
 
+        #[cfg(ckb_light_client_verif)]
+        crate::verif_hooks::point("read", "get_cells_capacity:after_scan");
         let key = Key::Meta(LAST_STATE_KEY).into_vec();
         let tip_header = snapshot
             .get(key)
